@@ -217,6 +217,57 @@ def main():
         ck.traces_validated += 1
 
     # ----------------------------------------- spectral densities (no T test)
+    # ------------------------------------------ the caller's dictionary
+    # components created in a scan from ONE dictionary that the caller keeps
+    # updating (also with parameters already in internal units): a function
+    # keeps the parameters it was created with, so later sums are the sums
+    # of the components as they were created
+    for units in ("int", "1/cm", "eV"):
+        for order in ("(a+b)+c", "a+(b+c)", "a+=b;+c"):
+            rp = dict(kind="caller-dictionary", units=units, order=order)
+            with ck.guarded("data-is-sum", "caller-dictionary", rp, rp):
+                with qr.energy_units(units):
+                    p = dict(ftype="OverdampedBrownian", T=300.0,
+                             matsubara=10, reorg=0.0, cortime=0.0)
+                    fs = []
+                    for k in range(3):
+                        p["reorg"] = R.from_internal(
+                            (20.0 + 15.0 * k) * R.CM2INT, units)
+                        p["cortime"] = 100.0 + 40.0 * k
+                        fs.append(qr.CorrelationFunction(ta, p))
+                    p["reorg"] = R.from_internal(999.0 * R.CM2INT, units)
+                    p["cortime"] = 5.0
+                want = [numpy.array(f.data) for f in fs]
+                wl = [(20.0 + 15.0 * k) * R.CM2INT for k in range(3)]
+                a, b, c = fs
+                if order == "(a+b)+c":
+                    o = (a + b) + c
+                elif order == "a+(b+c)":
+                    o = a + (b + c)
+                else:
+                    o = a.copy()
+                    o += b
+                    o = o + c
+                sc = float(numpy.abs(sum(want)).max())
+                e = float(numpy.abs(numpy.array(o.data) - sum(want)).max()) / sc
+                el = abs(float(o.lamb) - sum(wl)) / sum(wl)
+                ek = max(abs(float(f.lamb) - w) / w for f, w in zip(fs, wl))
+                eo = max(float(numpy.abs(numpy.array(f.data) - w).max())
+                         for f, w in zip(fs, want)) / sc
+                ck.case("caller-dictionary", (units, order), sample=dict(
+                    rp, data_err=e, lamb_err=el, operand_err=max(ek, eo)))
+                if e > 1e-12:
+                    ck.violation("data-is-sum", "caller-dictionary:" + units,
+                                 dict(rp, err=e), rp)
+                if el > 1e-12 or ek > 1e-12:
+                    ck.violation("reorganisation-additive",
+                                 "caller-dictionary:" + units,
+                                 dict(rp, sum_err=el, operand_err=ek), rp)
+                if eo > 0.0:
+                    ck.violation("operands-unchanged",
+                                 "caller-dictionary:" + units,
+                                 dict(rp, err=eo), rp)
+
     sd_units(ck, qr, numpy, ta)
 
     # ------------------------------------------------------ numeric clauses
